@@ -53,6 +53,8 @@ const (
 	kString     // string (never emitted)
 	kIface      // Request / Response
 	kBuilder    // *strings.Builder: the bytes written so far (list N)
+	kList       // []T for a struct T held as a record of the model: list T
+	kAny        // interface{} as a result: RegistersSpec.aval
 	kNil        // the predeclared nil
 	kVoid
 )
@@ -60,7 +62,7 @@ const (
 type typ struct {
 	k    kind
 	name string // kStruct, kIface: the Go name
-	elem *typ   // kPtr
+	elem *typ   // kPtr, kList
 	n    int    // kArray
 }
 
@@ -134,6 +136,10 @@ func (t *typ) String() string {
 		return "string"
 	case kBuilder:
 		return "*strings.Builder"
+	case kList:
+		return "[]" + t.elem.String()
+	case kAny:
+		return "interface{}"
 	case kIface:
 		return t.name
 	case kNil:
@@ -167,7 +173,7 @@ func sameType(a, b *typ) bool {
 	switch a.k {
 	case kStruct, kIface:
 		return a.name == b.name
-	case kPtr:
+	case kPtr, kList:
 		return sameType(a.elem, b.elem)
 	case kArray:
 		return a.n == b.n
@@ -195,10 +201,12 @@ type constDecl struct {
 }
 
 type funcDecl struct {
-	name string // "F" or "Recv.M"
-	recv string // receiver struct name ("" for functions)
-	decl *ast.FuncDecl
-	file string
+	pkgName string // the package clause of its file
+	foreign *pkg   // the function belongs to an imported package (translated by that package's translator)
+	name    string // "F" or "Recv.M"
+	recv    string // receiver struct name ("" for functions)
+	decl    *ast.FuncDecl
+	file    string
 }
 
 type pkg struct {
@@ -219,6 +227,8 @@ type pkg struct {
 	// re-slices (through its receiver): such a field gets a companion bool "is nil" / is a GoSem.slice
 	nilCompared map[string]bool
 	sliceFields map[string]bool
+	// names of imported packages whose declarations were merged into this one (importPkg)
+	imported map[string]bool
 }
 
 func loadPkg(dir string) (*pkg, error) {
@@ -297,7 +307,7 @@ func loadPkg(dir string) (*pkg, error) {
 		for _, d := range f.Decls {
 			switch dd := d.(type) {
 			case *ast.FuncDecl:
-				fd := &funcDecl{name: dd.Name.Name, decl: dd, file: fname}
+				fd := &funcDecl{name: dd.Name.Name, decl: dd, file: fname, pkgName: f.Name.Name}
 				if dd.Recv != nil && len(dd.Recv.List) == 1 {
 					rt := dd.Recv.List[0].Type
 					if st, ok := rt.(*ast.StarExpr); ok {
@@ -367,6 +377,79 @@ func loadPkg(dir string) (*pkg, error) {
 		})
 	}
 	return p, nil
+}
+
+// importPkg merges the declarations of an imported package q (under the import name alias) into p, so
+// that alias.T, alias.C and methods of q's types resolve.  Name clashes are refused.
+func (p *pkg) importPkg(alias string, q *pkg) error {
+	if p.imported == nil {
+		p.imported = map[string]bool{}
+	}
+	p.imported[alias] = true
+	for n, s := range q.structs {
+		if _, dup := p.structs[n]; dup {
+			return fmt.Errorf("struct %s declared in both packages", n)
+		}
+		p.structs[n] = s
+	}
+	for n, t := range q.named {
+		if _, dup := p.named[n]; dup {
+			return fmt.Errorf("type %s declared in both packages", n)
+		}
+		p.named[n] = t
+	}
+	for n := range q.ifaces {
+		p.ifaces[n] = true
+	}
+	for n, c := range q.consts {
+		if c.where == "" {
+			p.consts[alias+"."+n] = c
+		}
+	}
+	for n, fd := range q.funcs {
+		if _, dup := p.funcs[n]; dup {
+			continue // a function of the same name here shadows nothing: calls are alias-qualified
+		}
+		c := *fd
+		c.foreign = q
+		p.funcs[n] = &c
+	}
+	for k, v := range q.sliceFields {
+		p.sliceFields[k] = v
+	}
+	for k, v := range q.nilCompared {
+		p.nilCompared[k] = v
+	}
+	// named types of p that refer to imported types were void on the first pass: resolve again
+	for _, f := range p.files {
+		for _, d := range f.Decls {
+			gd, ok := d.(*ast.GenDecl)
+			if !ok || gd.Tok != token.TYPE {
+				continue
+			}
+			for _, s := range gd.Specs {
+				ts := s.(*ast.TypeSpec)
+				switch tt := ts.Type.(type) {
+				case *ast.StructType:
+					sd := p.structs[ts.Name.Name]
+					sd.fields = nil
+					for _, fl := range tt.Fields.List {
+						ft := p.typeOfExprSafe(fl.Type)
+						if len(fl.Names) == 0 {
+							sd.fields = append(sd.fields, &field{name: ft.name, typ: ft, embedded: true})
+						}
+						for _, nm := range fl.Names {
+							sd.fields = append(sd.fields, &field{name: nm.Name, typ: ft})
+						}
+					}
+				case *ast.InterfaceType:
+				default:
+					p.named[ts.Name.Name] = p.typeOfExprSafe(ts.Type)
+				}
+			}
+		}
+	}
+	return nil
 }
 
 // scanReceiverFields fills nilCompared and sliceFields.
@@ -630,6 +713,11 @@ func (p *pkg) typeOfExprOpt(e ast.Expr) *typ {
 			return &typ{k: kIface, name: x.Name}
 		}
 		if t, ok := p.named[x.Name]; ok {
+			if t.k == kList {
+				c := *t
+				c.name = x.Name // methods are found by the declared name
+				return &c
+			}
 			return t
 		}
 	case *ast.StarExpr:
@@ -648,6 +736,9 @@ func (p *pkg) typeOfExprOpt(e ast.Expr) *typ {
 			if et.k == kBool {
 				return tBools
 			}
+			if et.k == kStruct {
+				return &typ{k: kList, elem: et}
+			}
 			return nil
 		}
 		if et.k == kU8 {
@@ -658,6 +749,15 @@ func (p *pkg) typeOfExprOpt(e ast.Expr) *typ {
 		}
 	case *ast.ParenExpr:
 		return p.typeOfExprOpt(x.X)
+	case *ast.InterfaceType:
+		if x.Methods == nil || len(x.Methods.List) == 0 {
+			return &typ{k: kAny}
+		}
+	case *ast.SelectorExpr:
+		// pkg.T for an imported package whose declarations were merged in (importPkg)
+		if id, ok := x.X.(*ast.Ident); ok && p.imported[id.Name] {
+			return p.typeOfExprOpt(x.Sel)
+		}
 	}
 	return nil
 }
